@@ -253,6 +253,21 @@ func (d *vcsDouble) commitForeign(n int) {
 	d.head[d.manifest] = append(out, '\n')
 }
 
+// begin starts a further submission against the same back end (vf/reuse): the committed head, the
+// foreign entries and the workspace numbering carry on, the outcome script and the per-submission
+// counters start afresh. It returns a function that yields the view of the double restricted to
+// what happened since (log slice, workspaces created since), which is what judge is shown.
+func (d *vcsDouble) begin(sc *scenario) func() *vcsDouble {
+	d.sc, d.created, d.rcalls, d.overflow = sc, 0, 0, false
+	logStart, wsStart := len(d.log), len(d.wss)
+	return func() *vcsDouble {
+		v := *d
+		v.log = d.log[logStart:]
+		v.wss = d.wss[wsStart:]
+		return &v
+	}
+}
+
 func (d *vcsDouble) stepFor(i int) step {
 	if i < len(d.sc.Script) {
 		return d.sc.Script[i]
@@ -614,6 +629,14 @@ func judge(sc *scenario, d *vcsDouble, err error, pan any) (*verdict, summary) {
 				atts[len(atts)-1].fault = e.Fault
 			}
 		default: // workspace operations
+			if len(atts) == 0 {
+				// only possible when the log is a slice of a longer history (vf/reuse): an
+				// operation on a workspace of an earlier submission before this one's first attempt
+				if e.Op == "Destroy" {
+					continue
+				}
+				return bad("C14/stale-workspace-used", "%s on workspace %d of an earlier submission before this submission created a workspace", e.Op, e.WS)
+			}
 			cur := atts[len(atts)-1]
 			if e.Op != "Destroy" {
 				if e.After == "destroy" {
@@ -1008,6 +1031,103 @@ func TestRetrySubmitDirect(t *testing.T) {
 			return
 		}
 		ev.Case(name, nontrivial(sum), sc.String(), classOf(sc, sum), sample(sc, d, err))
+	})
+}
+
+// ---------------------------------------------------------------------------------------------
+// Sub-check 4: several submissions through ONE *endorse.Context and one back end. Nothing may be
+// carried from one submission to the next: each is judged on its own slice of the call log.
+
+func safeVirtualFirmware(ctx context.Context) (err error, pan any) {
+	defer func() {
+		if r := recover(); r != nil {
+			if s, ok := r.(string); ok && strings.HasPrefix(s, "harness:") {
+				panic(r)
+			}
+			pan = r
+		}
+	}()
+	err = endorse.VirtualFirmware(ctx)
+	return
+}
+
+func TestContextReuse(t *testing.T) {
+	initFW(t)
+	const name = "vf/reuse"
+	ev.Rule(name, "ONE *endorse.Context and ONE scripted back end used for 2..4 consecutive endorse.VirtualFirmware submissions (candidate names sub0, sub1, ...; retry budget drawn from {0,1,2}; --overwrite drawn); the Context starts as {VCS=double, VCSs empty | VCS nil, VCSs=[double] | VCS=double, VCSs=[double]}; each submission has its own outcome script, shapes {ok x3, commit.r then ok x2, one permanent fault x2, all retriable, mixed over all sites}, 0..2 foreign entries before an attempt now and then. Oracle: every single-submission clause of vf/exhaustive applied to that submission's slice of the call log and to the workspaces created during it (attempts <= max(budget,0)+1, no attempt after a successful commit, retry only on a retriable verdict, fresh workspace per attempt, failed workspaces released once, nil iff exactly one commit succeeded, Result exactly once with that commit, committed manifest keeps every foreign entry). One ev.Case per submission; non-trivial = second or later submission; distinct = (initial wiring, budget, overwrite, scripts up to and including this submission)")
+	checks(ev.Scale(2500, 25000))
+	sites := []string{sWS, sRead, sExists, sWrite, sChmod, sWMan, sCommit}
+	rapid.Check(t, func(t *rapid.T) {
+		wiring := rapid.SampledFrom([]string{"vcs", "vcs", "vcss", "both"}).Draw(t, "wiring")
+		budget := rapid.SampledFrom([]int{0, 1, 2}).Draw(t, "budget")
+		overwrite := rapid.Bool().Draw(t, "overwrite")
+		nsub := rapid.IntRange(2, 4).Draw(t, "nsub")
+
+		d := newDouble(&scenario{Mode: modeVF, Budget: budget})
+		ec := &endorse.Context{
+			SevSnp: &sev.SnpEndorsementRequest{
+				Svn:         2,
+				FamilyID:    sev.GCEUefiFamilyID,
+				ImageID:     "87654321-dead-beef-c0de-123456789abc",
+				LaunchVmsas: 1,
+				Product:     spb.SevProduct_SEV_PRODUCT_MILAN,
+			},
+			ClSpec:        4321,
+			Image:         firmware,
+			Timestamp:     stamp,
+			CommitRetries: budget,
+			OutDir:        outDir,
+		}
+		switch wiring {
+		case "vcs":
+			ec.VCS = d
+		case "vcss":
+			ec.VCSs = []endorse.VersionControl{d}
+		case "both":
+			ec.VCS = d
+			ec.VCSs = []endorse.VersionControl{d}
+		}
+		ctx := output.NewContext(context.Background(), &output.Options{Quiet: true, Overwrite: overwrite})
+		ctx = keys.NewContext(ctx, &keys.Context{CA: fakeCA{}, Signer: fakeSigner{}, Random: &counterReader{}})
+		ctx = endorse.NewContext(ctx, ec)
+
+		history := fmt.Sprintf("wiring=%s ow=%v", wiring, overwrite)
+		for k := 0; k < nsub; k++ {
+			sc := &scenario{Mode: modeVF, Budget: budget, Overwrite: overwrite, Candidate: fmt.Sprintf("sub%d", k)}
+			switch shape := rapid.SampledFrom([]string{"ok", "ok", "ok", "retry-ok", "retry-ok", "permanent", "permanent", "exhaust", "mixed"}).Draw(t, "shape"); shape {
+			case "ok":
+				sc.Script = []step{{Site: sOK}}
+			case "retry-ok":
+				sc.Script = []step{{Site: sCommit, Retriable: true}, {Site: sOK}}
+			case "permanent":
+				sc.Script = []step{{Site: rapid.SampledFrom(sites).Draw(t, "site")}}
+			case "exhaust":
+				for i := 0; i <= bound(budget); i++ {
+					sc.Script = append(sc.Script, step{Site: rapid.SampledFrom(sites).Draw(t, "site"), Retriable: true})
+				}
+			default:
+				sc.Script = genScript(t, sites, bound(budget)+1)
+			}
+			if rapid.IntRange(0, 3).Draw(t, "foreignNow") == 0 {
+				i := rapid.IntRange(0, len(sc.Script)-1).Draw(t, "foreignAt")
+				sc.Script[i].Foreign = rapid.IntRange(1, 2).Draw(t, "foreign")
+			}
+			ec.CandidateName = sc.Candidate
+			view := d.begin(sc)
+			err, pan := safeVirtualFirmware(ctx)
+			dv := view()
+			history += fmt.Sprintf(" | #%d %s", k+1, sc)
+			v, sum := judge(sc, dv, err, pan)
+			if v != nil {
+				ev.Violation(t, v.Key, "submission %d of %d through one Context (%s): %s", k+1, nsub, history, v.Msg)
+				return
+			}
+			pos := "first"
+			if k > 0 {
+				pos = "later"
+			}
+			ev.Case(name, k > 0, history, fmt.Sprintf("%s/%s/%s", wiring, pos, classOf(sc, sum)), sample(sc, dv, err))
+		}
 	})
 }
 
